@@ -39,9 +39,9 @@ def run(ctx):
     ctx.run_space(asan, "subst", ["streams=" + dump], cpu_limit=120)
     if T:
         # all 3-byte strings: plain build for volume (bounds violations are caught at the smaller asan bound above)
-        ctx.run_space(plain, "short", ["maxlen=3"], cpu_limit=120)
+        ctx.run_space(plain, "short", ["maxlen=3", "light=1"], cpu_limit=120)
     return ctx.finish(
-        rule="'short': every byte string up to the length as the whole compressed input of each of the 14 method names x declared lengths {0,1,65536,2^32-1} x read schedules {1.., 3.., 4096.., 1 then 4096} (+ one byte per input callback for bit-reader decoders); "
+        rule="'short': every byte string up to the length (thorough: also every 3-byte string for the seven small-state decoders, plain build, two schedules) as the whole compressed input of each of the 14 method names x declared lengths {0,1,65536,2^32-1} x read schedules {1.., 3.., 4096.., 1 then 4096} (+ one byte per input callback for bit-reader decoders); "
              "'lhgrammar'/'lhgrammar2': block count x temp-table size x all-equal temp lengths (0..19, unary extension) x skip x code-table size / out-of-range single symbols x offset-table size beyond the maximum, each followed by every bit string up to maxbits with all-0 and all-1 tails; "
              "'subst': every byte position of several hundred (thorough: thousands of) valid streams dumped from the C01/C03/C04 spaces x all 255 substitutions, truncation, 0x00/0xFF tails; 'pm2grammar': num_codes x min_len x length_bits over their full 5+3+3-bit ranges x field values, then bit strings; 'pm1grammar': 32 headers x every command prefix; 'lh1bits'. Oracle: no sanitizer report/signal, read(k) returns <= k, total <= declared, the call returns (CPU watchdog). "
              "non-trivial = distinct input byte strings",
